@@ -62,6 +62,7 @@ func checkC16(c *Check, a *Anchors) {
 	nilContradictions(c, a, "checked-then-dereferenced", []string{PkgTask, PkgAst, PkgTaskfile})
 	// a load error that is swallowed leaves a vertex without a parsed Taskfile in the graph (nil dereference later)
 	c08CycleVersionMissing(c, a)
+	lookupResultChecked(c, a)
 }
 
 func c16BCE(c *Check, a *Anchors) {
